@@ -486,7 +486,9 @@ func cmdCheck(args []string) {
 		case "alloc":
 			ok = o.panicked || o.timedOut || o.oom || strings.HasPrefix(o.assertFail, "bounded-alloc")
 		case "loop":
-			ok = o.timedOut || strings.HasPrefix(o.assertFail, "bounded-loop") || strings.HasPrefix(o.assertFail, "bounded-alloc") || o.oom
+			// natively a runaway loop shows as a time-out, as the measured bound, or — when the loop runs in
+			// another goroutine of a time-bounded harness — as the liveness assertion that fails meanwhile
+			ok = o.timedOut || strings.HasPrefix(o.assertFail, "bounded-loop") || strings.HasPrefix(o.assertFail, "bounded-alloc") || o.oom || o.assertFail != ""
 		}
 		if o.err != "" {
 			inconclusive = append(inconclusive, fmt.Sprintf("%s: counterexample replay failed to run: %s", fv.run.spec.Func, o.err))
